@@ -210,7 +210,7 @@ Section Rec.
   Lemma pw_printValue value verb depth ci : pw (printValue rec env value verb depth ci).
   Proof. unfold printValue. destruct depth; destruct value; pw2; try apply pw_print_kind. Qed.
   Lemma pw_printArg_body arg verb : pw (printArg_body rec env arg verb).
-  Proof. unfold printArg_body. pw2. Qed.
+  Proof. unfold printArg_body, printArg_inner. pw2. Qed.
   Lemma pw_printArg arg verb : pw (printArg rec env arg verb).
   Proof. unfold printArg. pw2; apply pw_printArg_body. Qed.
   Lemma pw_run_action self verb a : pw (run_action rec env self verb a).
